@@ -554,6 +554,21 @@ class NativeVC:
         return o.kind == "raise" and isinstance(o.exc, cls)
 
 
+def _raised_in_harness(exc):
+    """was the exception raised by harness code itself (innermost frame under contracts/)?
+    Then the harness no longer fits the code it looks into (an attribute it reads is gone,
+    ...): that is a checker problem, never evidence about the property"""
+    tb = exc.__traceback__
+    last = None
+    while tb is not None:
+        last = tb
+        tb = tb.tb_next
+    if last is None:
+        return False
+    fn = last.tb_frame.f_code.co_filename.replace("\\", "/")
+    return "/contracts/" in fn
+
+
 def run(modname, fname, model):
     mod = importlib.import_module(modname)
     fn = getattr(mod, fname)
@@ -568,6 +583,8 @@ def run(modname, fname, model):
         return {"verdict": "invalid", "reason": str(exc), "results": vc.results}
     except BaseException as exc:  # noqa: BLE001
         crashed = "".join(traceback.format_exception_only(type(exc), exc)).strip()
+        if _raised_in_harness(exc) and not [r for r in vc.results if not r[1]]:
+            return {"verdict": "invalid", "reason": "the harness itself raised " + crashed + " (it no longer fits the code it inspects)", "results": vc.results}
         vc.results.append(("no-uncaught-exception", False, crashed))
     failed = [r for r in vc.results if not r[1]]
     return {
@@ -968,6 +985,8 @@ def fuzz(modname, fname, n, seed, budget_s):
             return {"verdict": "invalid", "reason": str(exc)}
         except BaseException as exc:  # noqa: BLE001
             crashed = "".join(traceback.format_exception_only(type(exc), exc)).strip()
+            if _raised_in_harness(exc) and not [r for r in vc.results if not r[1]]:
+                return {"verdict": "invalid", "reason": "the harness itself raised " + crashed + " (it no longer fits the code it inspects)", "runs": runs}
             vc.results.append(("no-uncaught-exception", False, crashed))
         runs += 1
         distinct.add(json.dumps(vc.model, sort_keys=True, default=repr))
